@@ -25,7 +25,7 @@ THEOREMS = [
     "concat_scan_sorted_iff", "table_scan_sorted", "table_scan_sorted_under_range", "two_rowsets_scan_sorted", "scan_contract_sorted", "order_analysis_sound",
     "useless_order_sound_partial", "useless_order_sound", "reachable_rowsets_sorted", "useless_order_sound_reachable",
     "order_arm_Scan", "order_arm_Order", "order_arm_TopN", "order_arm_Proj", "order_arm_Filter", "order_arm_Window", "order_arm_Limit",
-    "order_arm_MergeJoin", "order_arm_SortAgg", "mergejoin_order_claim_needs_group_eq", "hashjoin_probe_order", "hashjoin_left_outer_order_unsound",
+    "order_arm_MergeJoin", "order_arm_SortAgg", "order_merge_sound", "mergejoin_order_claim_needs_group_eq", "hashjoin_probe_order", "hashjoin_left_outer_order_unsound",
 ]
 
 PRECEDENCE = [
@@ -1092,10 +1092,29 @@ def parse_order_arms(src):
     return claims, notes
 
 
+def parse_order_merge(src):
+    """How `ExprAnalysis::merge` (src/planner/rules/mod.rs) combines the order properties of the
+    members of an e-class: returns ("prefix" | "max", source text)."""
+    i = src.index("impl Analysis<Expr> for ExprAnalysis")
+    mi = src.index("fn merge", i)
+    fb = src.index("{", mi)
+    body = re.sub(r"//[^\n]*", "", src[fb:_matching(src, fb)])
+    flat = " ".join(body.split())
+    if re.search(r"egg::merge_max\(&mut to\.orderby, from\.orderby\)", flat):
+        return "max", "egg::merge_max(&mut to.orderby, from.orderby)"
+    m = re.search(r"let common = \(to\.orderby\.iter\(\)\.zip\(from\.orderby\.iter\(\)\)\) \.take_while\(\|\(a, b\)\| a == b\) \.count\(\);"
+                  r" let merge_order = DidMerge\(common < to\.orderby\.len\(\), common < from\.orderby\.len\(\)\);"
+                  r" if common < to\.orderby\.len\(\) \{ to\.orderby = to\.orderby\[\.\.common\]\.into\(\); \}", flat)
+    if m:
+        return "prefix", "to.orderby = to.orderby[..common] with common = length of the common prefix of to.orderby and from.orderby"
+    raise ValueError("the merge of `orderby` in ExprAnalysis::merge is not in a shape the translator reads")
+
+
 def gen_order_arms(repo, write=True):
     lean_dir = vlib.LEAN
     src = open(os.path.join(repo, "src/planner/rules/order.rs")).read()
     claims, notes = parse_order_arms(src)
+    merge_kind, merge_text = parse_order_merge(open(os.path.join(repo, "src/planner/rules/mod.rs")).read())
     out = ["/- GENERATED on every run of ./check C12 by checks/c12.py (gen_order_arms) from the match arms of",
            "   `analyze_order` in src/planner/rules/order.rs. Do not edit.",
            "   For every operator with an explicit arm: `claim_<Op>`, the order the planner claims for the node's",
@@ -1118,6 +1137,15 @@ def gen_order_arms(repo, write=True):
         else:
             out.append("def claim_%s (t : JT) (lks rks xl xr : List OrdKey) : List OrdKey :=\n  %s" % (op, term.replace("\n", "\n  ")))
         out.append("")
+    out.append("/-- ExprAnalysis::merge on the order property of two members of an e-class: `%s` -/" % merge_text)
+    if merge_kind == "prefix":
+        out.append("def mergeOrder : List OrdKey → List OrdKey → List OrdKey")
+        out.append("  | a :: as, b :: bs => if a = b then a :: mergeOrder as bs else []")
+        out.append("  | _, _ => []")
+    else:
+        out.append("def mergeOrder (a b : List OrdKey) : List OrdKey :=")
+        out.append("  if (a.map fun k => (k.col, k.desc)) < (b.map fun k => (k.col, k.desc)) then b else a")
+    out.append("")
     out.append("end RlModel.Gen")
     text = "\n".join(out) + "\n"
     path = os.path.join(lean_dir, "RlModel", "Gen", "OrderArms.lean")
